@@ -10,6 +10,8 @@
 #include "utest_classes.hpp"
 #include <session.cpp>
 #include <cstdio>
+#include <vector>
+#include <string>
 #include <unistd.h>
 using namespace FIX8;
 using namespace FIX8::UTEST;
@@ -33,6 +35,19 @@ public:
 	void set_state(States::SessionStates st) { _state = st; }
 	void tick() { heartbeat_service(); }
 };
+// outbound messages go through the real Session::send_process (numbering, PossDup/OrigSendingTime, persistence); the encoded bytes land in the
+// mock's _output through Connection::send(const char *, size_t)
+class seq_connection : public ClientConnection
+{
+public:
+	seq_connection(Poco::Net::SocketAddress& addr, Session& session) : ClientConnection(0, addr, session, pm_thread, false) {}
+	bool write(Message *from, bool destroy) override
+	{
+		const bool result(_session.send_process(from));
+		if (destroy) delete from;
+		return result;
+	}
+};
 struct Fx
 {
 	MemoryPersister *per; test_session *ss; ClientConnection *conn;
@@ -41,7 +56,7 @@ struct Fx
 		per = new MemoryPersister;
 		ss = new test_session(ctx(), SessionID("FIX.4.2:A12345B->COMPARO"), per);
 		Poco::Net::SocketAddress addr("127.0.0.1:80");
-		conn = new ClientConnection(0, addr, *ss, pm_thread, false);
+		conn = new seq_connection(addr, *ss);
 		conn->connect();
 		ss->start(conn, false);
 	}
@@ -94,6 +109,88 @@ static void logon_gap()
 	if (st == States::st_session_terminated || st == States::st_logoff_sent || f.ss->is_shutdown())
 		REPORT("{\"scenario\":\"logon_gap\",\"history\":\"Logon reply with MsgSeqNum 4, expected 1\",\"state\":%d,\"session_shut_down\":%d}", (int)st, (int)f.ss->is_shutdown());
 }
+// C18: answer to a ResendRequest: dump what goes on the wire (MsgType, MsgSeqNum, NewSeqNo, PossDup) so that the caller can compare with the specification
+static void dump_wire(Fx& f, const char *scenario)
+{
+	for (auto& o : f.conn->_output)
+	{
+		auto fld = [&](const char *tag) { std::string k(std::string("\001") + tag + "="); size_t p = o.find(k); if (p == std::string::npos) return std::string("-"); p += k.size(); return o.substr(p, o.find('\001', p) - p); };
+		printf("{\"scenario\":\"%s\",\"35\":\"%s\",\"34\":\"%s\",\"36\":\"%s\",\"43\":\"%s\",\"123\":\"%s\"}\n", scenario, fld("35").c_str(), fld("34").c_str(), fld("36").c_str(), fld("43").c_str(), fld("123").c_str());
+	}
+}
+static void send_orders(Fx& f, int n)
+{
+	for (int i = 0; i < n; ++i)
+	{
+		NewOrderSingle *m = new NewOrderSingle;
+		*m << new TransactTime << new ClOrdID("4") << new HandlInst('1') << new OrdType('2') << new Side('1') << new Symbol("OC") << new OrderQty(50) << new Price(400.5);
+		f.ss->send(m);
+	}
+}
+static void resend(Fx& f, unsigned seq, unsigned b, unsigned e)
+{
+	ResendRequest m; f.hdr(m.Header(), seq); m << new BeginSeqNo(b) << new EndSeqNo(e);
+	f8String s; m.encode(s); f.ss->update_received(); f.ss->process(s);
+}
+// compare the wire answer with the specification: stored numbers replayed in ascending order with PossDup, every gap announced by a GapFill whose
+// MsgSeqNum is the first number of the gap and whose NewSeqNo is the number after it; a final GapFill from the first uncovered number
+static void check_answer(Fx& f, const char *scenario, const std::vector<unsigned>& stored, unsigned b, unsigned e, unsigned next_before)
+{
+	std::vector<std::string> want;
+	unsigned cov = b;
+	for (unsigned s : stored)
+	{
+		if (s < b || (e && s > e)) continue;
+		if (s > cov) want.push_back("4:" + std::to_string(cov) + ":" + std::to_string(s));
+		want.push_back("D:" + std::to_string(s) + ":Y");
+		cov = s + 1;
+	}
+	std::vector<std::string> got;
+	for (auto& o : f.conn->_output)
+	{
+		auto fld = [&](const char *tag) { std::string k(std::string("\001") + tag + "="); size_t p = o.find(k); if (p == std::string::npos) return std::string("-"); p += k.size(); return o.substr(p, o.find('\001', p) - p); };
+		got.push_back(fld("35") == "4" ? "4:" + fld("34") + ":" + fld("36") : fld("35") + ":" + fld("34") + ":" + fld("43"));
+	}
+	bool ok = got.size() == want.size() + 1;
+	for (size_t i = 0; ok && i < want.size(); ++i) ok = got[i] == want[i];
+	if (ok) { const std::string& last = got.back(); ok = last.rfind("4:" + std::to_string(cov) + ":", 0) == 0; }	// final GapFill starts at the first uncovered number
+	if (ok) ok = f.ss->get_next_send_seq() >= next_before;
+	if (!ok)
+	{
+		std::string g, w; for (auto& x : got) g += x + " "; for (auto& x : want) w += x + " ";
+		REPORT("{\"scenario\":\"%s\",\"request\":[%u,%u],\"wire(type:MsgSeqNum:NewSeqNo|PossDup)\":\"%s\",\"expected_prefix\":\"%s\",\"then\":\"4:%u:*\"}", scenario, b, e, g.c_str(), w.c_str(), cov);
+	}
+}
+static void resend_scenarios(const std::string& which)
+{
+	if (which == "resend_bounded" || which == "resend")
+	{
+		Fx f; f.logon(1); send_orders(f, 9);	// our Logon was 1, orders are 2..10
+		const unsigned nb = f.ss->get_next_send_seq();
+		f.conn->_output.clear();
+		resend(f, 2, 3, 5);
+		check_answer(f, "bounded range of a full store", { 2, 3, 4, 5, 6, 7, 8, 9, 10 }, 3, 5, nb);
+	}
+	if (which == "resend_gap" || which == "resend")
+	{
+		Fx f; f.logon(1); send_orders(f, 2);	// 2, 3 stored
+		f.ss->send(new Heartbeat); f.ss->send(new Heartbeat);	// 4, 5: admin, not stored
+		send_orders(f, 2);	// 6, 7 stored
+		const unsigned nb = f.ss->get_next_send_seq();
+		f.conn->_output.clear();
+		resend(f, 2, 2, 0);
+		check_answer(f, "open range over a store with a gap (4, 5 were admin messages)", { 2, 3, 6, 7 }, 2, 0, nb);
+	}
+	if (which == "resend_late_start" || which == "resend")
+	{
+		Fx f; f.logon(1); f.ss->send(new Heartbeat); f.ss->send(new Heartbeat);	// 2, 3: admin
+		send_orders(f, 2);	// 4, 5 stored
+		const unsigned nb = f.ss->get_next_send_seq();
+		f.conn->_output.clear();
+		resend(f, 2, 2, 0);
+		check_answer(f, "open range whose first stored record is after the start (2, 3 were admin messages)", { 4, 5 }, 2, 0, nb);
+	}
+}
 // C22: one supervision tick for each combination of idle / silent seconds around the thresholds (H = 30 s, margin 36 s) and both test-request states
 static void heartbeat_ticks()
 {
@@ -122,6 +219,7 @@ int main(int argc, char **argv)
 	if (which == "second_gap" || which == "all") second_gap();
 	if (which == "logon_gap" || which == "all") logon_gap();
 	if (which == "tick" || which == "all") heartbeat_ticks();
+	if (which.rfind("resend", 0) == 0) resend_scenarios(which);
 	printf("{\"search_done\":true,\"class\":\"%s\",\"mismatches\":%d}\n", which.c_str(), bad);
 	fflush(stdout);
 	_exit(bad ? 1 : 0);	// skip static destructors: session.cpp is compiled into this program and also lives in libfix8 (duplicate statics)
